@@ -1,4 +1,76 @@
-import NumbersModel.Model.Tokenizer
-import NumbersModel.Gen.Constants
+/-
+C18 — Formula tokenizer is lossless, total, and accepts every formula the reader emits.
+Statements over `tokenize liveCfg` (Model/Tokenizer.lean with the tables generated from the
+source).  Clause 4 (reader output accepted) is not a theorem here; see harness/checks/c18.py.
+-/
+import NumbersModel.Lemmas.Tokenizer
+import NumbersModel.Lemmas.TokenizerQuotes
+import NumbersModel.Model.TokenizerCfg
 namespace NumbersModel.Props.C18
+open NumbersModel NumbersModel.Tokenizer
+
+/-- the regexes in tokenizer.py are the ones the scanners were derived from. -/
+theorem tables_as_modelled :
+    Gen.stringRegexDq = "\"(?:[^\"]*\"\")*[^\"]*\"(?!\")" ∧
+    Gen.stringRegexSq = "(?:'[^']*(?:''[^']*)*')(?:\\s*:\\s*'[^']*(?:''[^']*)*')*" ∧
+    Gen.snRegex = "^[1-9](\\.[0-9]+)?E$" := by decide
+
+/-- what the dispatcher silently relies on: every operator, closer and separator character
+    it dispatches on is in TOKEN_ENDERS (so the pending operand was saved first). -/
+theorem dispatch_chars_end_tokens : EndersOK Gen.TOKEN_ENDERS := by
+  have hop : ∀ x ∈ opChars, Gen.TOKEN_ENDERS.contains x = true := by decide
+  intro c h
+  rcases h with h | h | h | h | h
+  · exact hop c (by simpa [List.contains_iff_mem] using h)
+  all_goals (subst h; decide)
+
+theorem error_codes_ok : CodesOK Gen.ERROR_CODES ∧ CodesNoQuote Gen.ERROR_CODES := by
+  constructor
+  · unfold CodesOK; decide
+  · unfold CodesNoQuote; decide
+
+theorem liveCfg_fixed : FixedCfg liveCfg := ⟨rfl, error_codes_ok.1⟩
+
+/-- (1) lossless: for every string, if tokenizing succeeds the token texts concatenated in
+    order are the input — nothing dropped, duplicated or invented. -/
+theorem tokenize_lossless (s : Text) (toks : List Tok) (h : tokenize liveCfg s = .ok toks) :
+    (toks.map (·.value)).flatten = s :=
+  tokenize_flat dispatch_chars_end_tokens s toks h
+
+/-- (2) total: for every string the outcome is a token list or TokenizerError. -/
+theorem tokenize_total (s : Text) :
+    (∃ toks, tokenize liveCfg s = .ok toks) ∨ tokenize liveCfg s = .error .TokenizerError :=
+  tokenize_total' liveCfg_fixed s
+
+/-- the loop always finishes within `len + 1` iterations (every iteration consumes a character). -/
+theorem tokenize_terminates (s : Text) : tokenize liveCfg s ≠ .error .OutOfFuel := by
+  rcases tokenize_total s with ⟨t, h⟩ | h <;> rw [h] <;> simp
+
+/-- (3) a quoted string or quoted name is never split: every token that contains a quote
+    character is one complete literal — `"…"` with inner `"` doubled, or `'…'` with inner `'`
+    doubled, optionally continued by `:`-joined quoted names.  With (1), every quote
+    character of the input lies inside such a token. -/
+theorem quotes_not_split (s : Text) (toks : List Tok) (h : tokenize liveCfg s = .ok toks) :
+    ∀ t ∈ toks, hasQuote t.value = true → Lit Gen.whitespace t.value :=
+  tokenize_quotes error_codes_ok.2 s toks h
+
+/-- what the double-quote scanner accepts is a complete literal. -/
+theorem dq_literal_wellformed (s : Text) (n : Nat) (h : dqMatch s = some n) : DQLit (s.take n) :=
+  dqMatch_wf h
+
+theorem sq_literal_wellformed (s : Text) (n : Nat) (h : sqMatch Gen.whitespace s = some n) :
+    SQLit Gen.whitespace (s.take n) := sqMatch_wf h
+
+/-! ### the defect of the pinned commit, as a theorem about its model -/
+example : tokenize pinnedCfg ")".toList = .error .IndexError := by decide
+example : tokenize liveCfg ")".toList = .error .TokenizerError := by decide
+
+/-! ### non-vacuity -/
+example : (tokenize liveCfg "SUM(A1:B2)×3+\"a\"\"b\"".toList).toOption.map (·.map (·.value)) =
+    some ["SUM(".toList, "A1:B2".toList, ")".toList, "×".toList, "3".toList, "+".toList, "\"a\"\"b\"".toList] := by
+  decide +kernel
+example : (tokenize liveCfg "'x':'y'+1".toList).toOption.map (·.map (·.value)) =
+    some ["'x':'y'".toList, "+".toList, "1".toList] := by decide +kernel
+example : DQLit "\"a\"\"b\"".toList := ⟨"a\"\"b".toList, rfl, by decide⟩
+
 end NumbersModel.Props.C18
